@@ -37,9 +37,9 @@ func main() {
 	r := ev.Start("C12")
 	defer r.FinishOnPanic()
 	e := &enum.E{R: r}
-	maxLen := ev.Pick(r, 6, 9)
+	maxLen := ev.Pick(r, 6, 12)
 	spares := ev.Pick(r, []int{0, 1, 2, 5}, []int{0, 1, 2, 3, 5, 8, 17})
-	maxIns := ev.Pick(r, 3, 5)
+	maxIns := ev.Pick(r, 3, 7)
 	sampled := 0
 	for n := 0; n <= maxLen; n++ {
 		for _, sp := range spares {
